@@ -346,6 +346,16 @@ fn exec(nodes: &[Node], th: &mut Th, clean: bool) {
                     metrics::with_local_recorder(r, || {
                         exec(body, th, clean);
                         if *panic_at_end {
+                            // a destructor that emits while the panic unwinds through this scope: the scope has not
+                            // ended yet, so the emission is routed like any other made at this point
+                            struct OnDrop<F: FnMut()>(F);
+                            impl<F: FnMut()> Drop for OnDrop<F> {
+                                fn drop(&mut self) {
+                                    (self.0)()
+                                }
+                            }
+                            let thp: *mut Th = th;
+                            let _g = OnDrop(move || unsafe { exec(&[Node::Emit(body.len() % NFORMS, 1)], &mut *thp, clean) });
                             std::panic::resume_unwind(Box::new(PanicMarker));
                         }
                     })
